@@ -77,3 +77,20 @@ Print Assumptions C01_write_to_vec_appends_the_layout.
 Theorem C01_from_slice_decodes_encodings : forall v, wfb v = true -> from_slice (enc v) = Ok (normalise v).
 Proof. exact from_slice_enc. Qed.
 Print Assumptions C01_from_slice_decodes_encodings.
+
+(* L5 (second review): the integers on the wire read WITHOUT the decoder's helpers (sext / rd_be): the bytes are the
+   big-endian base-256 digits (be_sum), a signed integer is that number in two's complement (2^(8k) subtracted exactly when the
+   top bit of the first byte is set) *)
+Theorem C01_wire_integers_by_value :
+  (forall bs, Z.of_N (rd_be bs 0) = be_sum bs) /\
+  (forall bs, bytes_ok bs -> bs <> [] -> sext (length bs) (rd_be bs 0) = twos_value bs) /\
+  (forall bs n, bytes_ok bs -> num_wire bs n ->
+     match bs with
+     | t :: rest =>
+         (t = NUMBER_INT -> n = NInt (twos_value rest)) /\
+         (t = NUMBER_UINT -> exists u, n = NUInt u /\ Z.of_N u = be_sum rest) /\
+         (t = NUMBER_FLOAT -> exists b, n = NFloat b /\ Z.of_N b = be_sum rest)
+     | [] => False
+     end).
+Proof. split; [exact rd_be_is_be_sum|split; [exact sext_is_twos_value|exact num_wire_by_value]]. Qed.
+Print Assumptions C01_wire_integers_by_value.
